@@ -10,6 +10,9 @@ Model side: lean/GEVerif/Model/Eval.lean (`search`, `Algo`); theorems: lean/GEVe
 """
 from __future__ import annotations
 
+import json
+import os
+
 from core import Harness
 
 from props.eval_common import CheckCap, MutationOnlyRep, Recording, ScriptRep, SpyBudget, StructuralRep, uid
@@ -301,6 +304,73 @@ def check_step_object_reused(h: Harness):
                     h.holds(r.site, "stops-late-or-early", ["prop_stops", n, r.bound, r.counts],
                             f"{r.desc}: counter at the budget checks = {r.counts}; expected the first check with counter >= {n} and a total < {n} + {r.bound}",
                             replay, nontrivial=len(r.counts) > 1)
+
+
+def check_lexicase_with_missing_values_terminates(h: Harness):
+    """"a search with an evaluation budget n always terminates" -- also a GP search that selects by lexicase on a problem some of whose
+    objectives cannot be computed for some programs (NaN): run in a fresh interpreter under a time limit, the totals inside [n, n + population)"""
+    import subprocess
+    import sys
+    code = (
+        "import json, sys\n"
+        "sys.path.insert(0, HARNESS)\n"
+        "from props.eval_common import ScriptRep\n"
+        "from geneticengine.algorithms.gp.gp import GeneticProgramming\n"
+        "from geneticengine.algorithms.gp.operators.combinators import SequenceStep\n"
+        "from geneticengine.algorithms.gp.operators.mutation import GenericMutationStep\n"
+        "from geneticengine.algorithms.gp.operators.selection import LexicaseSelection\n"
+        "from geneticengine.evaluation.budget import EvaluationBudget\n"
+        "from geneticengine.evaluation.sequential import SequentialEvaluator\n"
+        "from geneticengine.evaluation.tracker import MultiObjectiveProgressTracker\n"
+        "from geneticengine.problems import MultiObjectiveProblem\n"
+        "from geneticengine.random.sources import NativeRandomSource\n"
+        "out = []\n"
+        "for seed, n, pop, eps in CONFIGS:\n"
+        "    def ff(ph):\n"
+        "        k = ph[1]\n"
+        "        return [float('nan') if k % 3 == 0 else float(k % 5), float(k % 7), float('nan') if k % 4 == 1 else float(k % 2)]\n"
+        "    problem = MultiObjectiveProblem([False, True, False], ff)\n"
+        "    ev = SequentialEvaluator()\n"
+        "    tracker = MultiObjectiveProgressTracker(problem, ev)\n"
+        "    alg = GeneticProgramming(problem, EvaluationBudget(n), ScriptRep(list(range(97))), NativeRandomSource(seed), tracker, population_size=pop,\n"
+        "                             step=SequenceStep(LexicaseSelection(epsilon=eps), GenericMutationStep(1)))\n"
+        "    alg.search()\n"
+        "    out.append([seed, n, pop, ev.number_of_evaluations()])\n"
+        "    print('C14LEX ' + json.dumps(out), flush=True)\n")
+    rng = h.rng
+    configs = [[rng.randrange(10**6), rng.randint(20, 60), rng.choice([4, 6, 10]), bool(k % 2)] for k in range(h.n(4, 20))]
+    here = os.path.dirname(os.path.dirname(os.path.abspath(__file__)))
+    env = dict(os.environ, PYTHONPATH=os.environ.get("VERIF_REPO", "/repo"))
+    src = code.replace("HARNESS", repr(here)).replace("CONFIGS", repr(configs))
+    done = []
+    timed_out = False
+    try:
+        p = subprocess.run([sys.executable, "-c", src], capture_output=True, text=True, env=env, timeout=60 if not h.thorough else 240)
+        text = p.stdout
+        err = p.stderr
+    except subprocess.TimeoutExpired as e:
+        timed_out = True
+        text = (e.stdout or b"").decode() if isinstance(e.stdout, bytes) else (e.stdout or "")
+        err = ""
+    for line in text.splitlines():
+        if line.startswith("C14LEX "):
+            done = json.loads(line[len("C14LEX "):])
+    for seed, n, pop, total in done:
+        h.count("lexicase-with-missing-values")
+        h.seen(f"lex-nan:{seed}:{n}:{pop}", nontrivial=True)
+        if not (n <= total < n + pop):
+            h.fail("GeneticProgramming.search", "stops-late-or-early",
+                   f"GeneticProgramming(population_size={pop}, step=lexicase;mutation(1), EvaluationBudget({n})) on a problem with NaN objectives ended after "
+                   f"{total} evaluations; expected a total in [{n}, {n + pop})", {"seed": seed, "n": n, "pop": pop})
+    if timed_out:
+        k = len(done)
+        seed, n, pop, eps = configs[k]
+        h.fail("GeneticProgramming.search", "never-terminates-although-new-individuals-are-created",
+               f"GeneticProgramming(population_size={pop}, step=lexicase(epsilon={eps});mutation(1), EvaluationBudget({n}), seed {seed}) on a three-objective problem "
+               f"some of whose objectives are NaN for some programs did not finish within the time limit ({k} of {len(configs)} such searches had finished in "
+               f"well under a second each)", {"seed": seed, "n": n, "pop": pop, "epsilon": eps})
+    elif len(done) < len(configs):
+        h.fail("GeneticProgramming.search", "raises", f"lexicase search on a problem with NaN objectives failed: {err.strip()[-300:]}", {"configs": configs})
 
 
 def check_parallel_evaluator(h: Harness):
@@ -604,6 +674,7 @@ def check_simplegp(h: Harness):
 
 def run(h: Harness):
     check_step_object_reused(h)
+    check_lexicase_with_missing_values_terminates(h)
     check_evaluation_budgets(h)
     check_target_and_anyof(h)
     check_parallel_evaluator(h)
